@@ -3,8 +3,11 @@
 package vhost
 
 import (
+	"context"
+	"encoding/base64"
 	"net"
 	"net/http"
+	"net/http/httputil"
 	"strings"
 
 	"github.com/fatedier/frp/verif"
@@ -157,6 +160,7 @@ func verif_CheckAuth(rp *HTTPReverseProxy, domain, location, routeByHTTPUser, us
 //verif:contract (*~/pkg/util/vhost.HTTPReverseProxy).ServeHTTP
 //verif:props C07
 func verif_ServeHTTP(rp *HTTPReverseProxy, rw http.ResponseWriter, req *http.Request) {
+	hdr := req.Header
 	verif.ResetEvents()
 	rp.ServeHTTP(rw, req)
 	const evFwd = "net/http.Handler).ServeHTTP"
@@ -171,6 +175,9 @@ func verif_ServeHTTP(rp *HTTPReverseProxy, rw http.ResponseWriter, req *http.Req
 	} else {
 		verif.Ensures(!verif.Called(evCheckAuth) || !verif.RetBool(evCheckAuth, 0), "refused_only_when_check_failed")
 	}
+	// the credential decision and the routing read the same request: its headers are not edited in between
+	verif.Ensures(!verif.CalledWith("net/http.Header).Del", 0, hdr), "request_headers_not_deleted")
+	verif.Ensures(!verif.CalledWith("net/http.Header).Add", 0, hdr), "request_headers_not_added")
 }
 
 // ------------------------------------------------------------ the byte-sniffing muxer (https, tcpmux)
@@ -382,4 +389,87 @@ func verifLoopDel(newVrs, vrs []*Router, domain, httpUser, location string, idx 
 		return false // kept routes stay strictly descending
 	}
 	return true
+}
+
+// ------------------------------------------------------------ registering routes (C06 / C10)
+
+// Muxer.Listen: the listener carries the route's credentials and is registered
+// under exactly the requested (host, location, user) triple; a conflict is an error.
+//
+//verif:contract (*~/pkg/util/vhost.Muxer).Listen
+//verif:props C06 C07 C10
+func verif_Muxer_Listen(v *Muxer, ctx context.Context, cfg *RouteConfig) {
+	verif.ResetEvents()
+	l, err := v.Listen(ctx, cfg)
+	verif.Ensures(verif.CallCount("Routers).Add") == 1 && verif.CalledWith("Routers).Add", 1, cfg.Domain) && verif.CalledWith("Routers).Add", 2, cfg.Location) && verif.CalledWith("Routers).Add", 3, cfg.RouteByHTTPUser), "registers_the_requested_triple")
+	verif.Ensures(err == verif.RetErr("Routers).Add", 0), "conflict_is_reported")
+	if err == nil {
+		verif.Ensures(l != nil && l.mux == v && l.name == cfg.Domain && l.location == cfg.Location && l.routeByHTTPUser == cfg.RouteByHTTPUser, "listener_remembers_its_triple")
+		verif.Ensures(l.username == cfg.Username && l.password == cfg.Password, "listener_carries_route_credentials")
+		verif.Ensures(verif.CalledWith("Routers).Add", 4, any(l)), "route_leads_to_this_listener")
+		verif.Ensures(l.accept != nil && !verif.Closed(l.accept), "listener_open")
+	}
+}
+
+//verif:contract (*~/pkg/util/vhost.HTTPReverseProxy).Register
+//verif:props C06 C10
+func verif_HTTPReverseProxy_Register(rp *HTTPReverseProxy, routeCfg RouteConfig) {
+	verif.ResetEvents()
+	err := rp.Register(routeCfg)
+	verif.Ensures(verif.CallCount("Routers).Add") == 1 && verif.CalledWith("Routers).Add", 1, routeCfg.Domain) && verif.CalledWith("Routers).Add", 2, routeCfg.Location) && verif.CalledWith("Routers).Add", 3, routeCfg.RouteByHTTPUser), "registers_the_requested_triple")
+	verif.Ensures(err == verif.RetErr("Routers).Add", 0), "conflict_is_reported")
+}
+
+//verif:contract (*~/pkg/util/vhost.HTTPReverseProxy).UnRegister
+//verif:props C06 C10
+func verif_HTTPReverseProxy_UnRegister(rp *HTTPReverseProxy, routeCfg RouteConfig) {
+	verif.ResetEvents()
+	rp.UnRegister(routeCfg)
+	verif.Ensures(verif.CallCount("Routers).Del") == 1 && verif.CalledWith("Routers).Del", 1, routeCfg.Domain) && verif.CalledWith("Routers).Del", 2, routeCfg.Location) && verif.CalledWith("Routers).Del", 3, routeCfg.RouteByHTTPUser), "removes_exactly_this_triple")
+}
+
+// ------------------------------------------------------------ C06: backend connection pool key
+
+//verif:fieldfn RouteConfig ChooseEndpointFn
+func verifSpec_ChooseEndpointFn() (string, error) { return verif.Any[string](), verif.Any[error]() }
+
+// The request-rewrite hook of the reverse proxy relies on the route info and
+// route config that injectRequestInfoToCtx put into the request context.
+//
+//verif:assume-typeassert ~/pkg/util/vhost.NewHTTPReverseProxy$1
+
+// Rewrite hook: the URL host - the key under which http.Transport pools backend
+// connections - is built from the ROUTE's domain, location, route user and the
+// chosen endpoint ("all of this holds across connection reuse to backends": two
+// different routes never share pooled connections); the Host header is
+// rewritten iff the route declares a rewrite; configured request headers are set.
+//
+//verif:contract ~/pkg/util/vhost.NewHTTPReverseProxy$1
+//verif:props C06 C02
+func verif_Rewrite(r *httputil.ProxyRequest) {
+	rc := r.Out.Context().Value(RouteConfigKey).(*RouteConfig)
+	host0 := r.Out.Host
+	verif.Requires(r.Out.Header != nil && r.In.Header != nil, "requests_have_header_maps")
+	verif.ResetEvents()
+	verif.CallTarget(r)
+	const evChoose = "fieldfn:H.pkg.util.vhost.RouteConfig.ChooseEndpointFn"
+	if rc != nil {
+		endpoint := ""
+		if verif.Called(evChoose) {
+			endpoint = verif.RetStr(evChoose, 0)
+		}
+		want := rc.Domain + "." +
+			base64.StdEncoding.EncodeToString([]byte(rc.Location)) + "." +
+			base64.StdEncoding.EncodeToString([]byte(rc.RouteByHTTPUser)) + "." +
+			base64.StdEncoding.EncodeToString([]byte(endpoint))
+		verif.Ensures(r.Out.URL.Host == want, "pool_key_is_route_domain_location_user_endpoint")
+		if rc.RewriteHost != "" {
+			verif.Ensures(r.Out.Host == rc.RewriteHost, "host_rewritten_as_declared")
+		} else {
+			verif.Ensures(r.Out.Host == host0, "host_kept_without_rewrite")
+		}
+	} else {
+		verif.Ensures(r.Out.URL.Host == r.Out.Host, "no_route_no_rewrite")
+	}
+	verif.Ensures(r.Out.URL.Scheme == "http", "plain_http_to_backend")
 }
